@@ -25,7 +25,7 @@ RULE = ('cells = (transform in {DWT1D fwd/inv, DWT2D fwd/inv, SWT, DTCWT fwd/inv
 ASSUMPTIONS = ['float64', 'bounds 64*eps*gain*max|x|; bit-identity of batched vs per-slice results is reported, not demanded']
 TIMEOUT = {'quick': 900, 'thorough': 3300}
 WORKER_BUDGET = {'quick': 600, 'thorough': 2700}
-MIN_HELD = {'quick': 400, 'thorough': 4000}
+MIN_HELD = {'quick': 400, 'thorough': 2000}
 KINDS = ['dwt1f', 'dwt1i', 'dwt2f', 'dwt2i', 'swt', 'dtf', 'dti']
 NS, CS = [1, 2, 3, 5], [1, 2, 3, 4, 7]
 
@@ -33,7 +33,7 @@ NS, CS = [1, 2, 3, 5], [1, 2, 3, 4, 7]
 def cells(tier, seed):
     rnd = core.rng_for(seed, PROP, tier)
     out = []
-    n = 45 if tier == 'quick' else 500
+    n = 45 if tier == 'quick' else 1200
     for kind in KINDS:
         for _ in range(n):
             c = adapters.random_config(kind, rnd)
